@@ -172,10 +172,23 @@ class Visitor(_BaseVisitor[T], abc.ABC):
     - If a L{SkipNode} or L{SkipDeparture} exception is raised inside the main visitor C{visit()} method,
       the C{depart_*} method on the extensions will still be called. 
 
+    - If a L{SkipSiblings} exception is raised inside the main visitor C{visit()} method,
+      the children of the node are still visited and the node is still departed (by the main visitor and the extensions),
+      only the siblings to the right of the node are skipped.
+
     :param ob: An object to walk.
+    """
+    self._walkabout(ob)
+
+  def _walkabout(self, ob: T) -> bool:
+    """
+    Implementation of L{walkabout}.
+
+    :returns: True if the siblings to the right of C{ob} should be skipped.
     """
     call_depart = True
     skip_node = False
+    skip_siblings = False
     try:
       try:
         self.visit(ob)
@@ -184,15 +197,19 @@ class Visitor(_BaseVisitor[T], abc.ABC):
         call_depart = False
       except self.SkipDeparture:           
         call_depart = False
+      except self.SkipSiblings:
+        skip_siblings = True
       if not skip_node:
         try:
           for child in self.get_children(ob):
-              self.walkabout(child)
+              if self._walkabout(child):
+                break
         except self.SkipSiblings:
           pass
     except self.SkipChildren:
       pass
     self.depart(ob, extensions_only=not call_depart)
+    return skip_siblings
 
 # Adapted from https://github.com/pawamoy/griffe
 # Copyright (c) 2021, Timothée Mazzucotelli
